@@ -16,7 +16,7 @@ From J5V.lib Require Import Outcome Strcase.
 From J5V.model Require Import Entity EntityClient.
 From J5V.gen Require EntityGen.
 From J5V.proofs Require Import StrcaseProofs EntityProofs EntityGenProofs EntityReadmeProofs EntityClientProofs
-  EntitySpec EntitySpecProofs EntityAcceptProofs.
+  EntitySpec EntitySpecProofs EntityAcceptProofs EntityListProofs EntityFieldTypes.
 Import ListNotations.
 Local Open Scope N_scope.
 
@@ -198,6 +198,58 @@ Theorem C17_full_partial : forall e cs, compile e = Ok cs ->
   C17_spec_core e cs /\ (in_quantifier e = true -> spec_query_paths e cs).
 Proof. exact full_partial. Qed.
 Print Assumptions C17_full_partial.
+
+(* The List method (round 4, after seeded change C17-J): for every declaration in the quantifier that
+   compiles, the path parameters of List are exactly the key-typed keys flagged shardKey - primary
+   or not - in declaration order (spec_list_path, over the component list; no base-path hypothesis),
+   next to the Get / Events clause, and every List parameter is also a Get / Events parameter. *)
+Theorem C17_list_scoped_by_shard_keys : forall e cs, compile e = Ok cs -> in_quantifier e = true ->
+  spec_list_path e cs /\ spec_query_paths e cs
+  /\ (forall n, In n (shard_key_names e) -> In n (path_key_names e)).
+Proof. exact list_scoped_by_shard_keys. Qed.
+Print Assumptions C17_list_scoped_by_shard_keys.
+
+(* ... and the List request (EVERY declaration the model compiles): its fields are the shard keys in
+   declaration order, then page and query; each key field of the List request is, as a whole field
+   (type, key options, required / optional flags), a field of the Get request and of the Events
+   request: Get, List and Events agree on the keys they share. *)
+Theorem C17_list_request_scoped_by_shard_keys : forall e cs, compile e = Ok cs -> spec_list_request e cs.
+Proof. exact list_request_scoped_by_shard_keys. Qed.
+Print Assumptions C17_list_request_scoped_by_shard_keys.
+
+(* a key that is BOTH primary and shard is one of List's parameters (every declaration) *)
+Theorem C17_primary_shard_key_in_list : forall e k, In k (e_keys e) ->
+  key_typed k = true -> key_primary k = true -> k_shard k = true ->
+  In (to_snake (key_name k)) (shard_key_names e).
+Proof. exact primary_shard_key_in_list. Qed.
+Print Assumptions C17_primary_shard_key_in_list.
+
+(* non-vacuity: primary x shard, all four combinations in one declaration of the quantifier *)
+Example C17_key_flags_sample :
+  in_quantifier key_flags_sample = true /\ is_ok (compile key_flags_sample) = true
+  /\ shard_key_names key_flags_sample = [bs "both_id"; bs "shard_id"]
+  /\ path_key_names key_flags_sample = [bs "foo_id"; bs "both_id"; bs "shard_id"]
+  /\ nth 1 (query_paths key_flags_sample) [] = bs "/foo/v1/foo/q/{both_id}/{shard_id}".
+Proof. exact key_flags_sample_ok. Qed.
+Print Assumptions C17_key_flags_sample.
+
+(* Field TYPES (round 4): for EVERY declaration the model compiles, each property of the Keys and of
+   the Data schema is the declared field - name, type read off the declaration (sp_declared_type:
+   scalars, well-known messages, references, arrays / maps of these, inline schemas as nested types
+   named Camel(field)), repeated, key flags primary / tenant / foreign key, never flattened - in
+   declaration order, nothing else in the message. *)
+Theorem C17_field_types_as_declared : forall e cs, compile e = Ok cs -> spec_field_types e cs.
+Proof. exact field_types_as_declared. Qed.
+Print Assumptions C17_field_types_as_declared.
+
+Example C17_field_types_sample :
+  is_ok (compile field_types_sample) = true
+  /\ map (fun k => sp_declared_type (k_def k)) (e_keys field_types_sample) = [TScalar 9 (bs "key")]
+  /\ map sp_declared_type (e_data field_types_sample) = [TScalar 3 (bs "integer")]
+  /\ map sp_repeated (e_data field_types_sample) = [true]
+  /\ map (fun k => sp_key_flags (k_def k)) (e_keys field_types_sample) = [(true, Some (bs "org"), None)].
+Proof. exact field_types_sample_ok. Qed.
+Print Assumptions C17_field_types_sample.
 
 (* NOT a clause of C17 (it is C18's "property names are unique within each object", seen from the
    declaration): State / Event have pairwise distinct JSON properties - after flattening the keys -
